@@ -108,7 +108,7 @@ pub type ServiceSlot = Rc<Slot<Option<ServiceId>>>;
 
 /// Server: creates an object with a service, answers calls until all its clients are done, emits
 /// events now and then, finally destroys or drops everything.
-pub async fn server(ctx: Ctx, obj: u64, svc: u64, slot: ServiceSlot, clients_left: Rc<Latch>, subscribe_all: bool) {
+pub async fn server(ctx: Ctx, obj: u64, svc: u64, slot: ServiceSlot, clients_left: Rc<Latch>, subscribe_all: bool, emits: u64) {
     ctx.jitter().await;
     let object: Object = match op!(ctx, "create_object", json!({"uuid": obj}), ctx.handle.create_object(obj_uuid(obj))) {
         Ok(o) => o,
@@ -156,17 +156,20 @@ pub async fn server(ctx: Ctx, obj: u64, svc: u64, slot: ServiceSlot, clients_lef
         if ctx.chance(1, 2) {
             seq = ctx.token();
             let ev = ctx.below(2) as u32;
-            ctx.log.fact(&ctx.name, "emit", json!({"srv": svc, "ev": ev, "k": seq}));
+            ctx.log.fact(&ctx.name, "emit", json!({"srv": svc, "ev": ev, "k": seq, "cl": ctx.cl, "svcCookie": id.cookie.0.to_string()}));
             let _ = service.emit(ev, seq);
         }
     }
-    // a few more events for late subscribers, then the end
-    for _ in 0..ctx.below(3) {
+    // more events while subscribers come and go (spread over time), then the end
+    for _ in 0..emits {
         seq = ctx.token();
         let ev = ctx.below(2) as u32;
-        ctx.log.fact(&ctx.name, "emit", json!({"srv": svc, "ev": ev, "k": seq}));
+        ctx.log.fact(&ctx.name, "emit", json!({"srv": svc, "ev": ev, "k": seq, "cl": ctx.cl, "svcCookie": id.cookie.0.to_string()}));
         let _ = service.emit(ev, seq);
         ctx.jitter().await;
+        if ctx.chance(1, 2) {
+            crate::yields(ctx.below(12)).await;
+        }
     }
     match ctx.below(4) {
         0 => {
